@@ -2,6 +2,7 @@ import QuantemModel.Core.Proto
 import QuantemModel.Model.Serialize
 import QuantemModel.Core.SerializeJson
 import QuantemModel.Model.SeqKeys
+import QuantemModel.Model.SerializeExt
 open Lean QuantemModel QuantemModel.Proto QuantemModel.Serialize
 
 namespace DrvC01
@@ -14,6 +15,29 @@ def skipOfJson (j : Json) : Except String Skip := do
 def errName : Err → String
   | .valueError => "ValueError" | .keyError => "KeyError" | .typeError => "TypeError"
 
+def callErrName : CallErr → String
+  | .valueError => "ValueError" | .fileExists => "FileExistsError" | .fileNotFound => "FileNotFoundError"
+  | .typeError => "TypeError" | .keyError => "KeyError"
+
+def saveArgsOfJson (j : Json) : Except String SaveArgs := do
+  let lvl := fieldD j "level" Json.null
+  let level ← (if lvl.isNull then pure none else do pure (some (← lvl.getInt?)) : Except String (Option Int))
+  pure { path := (← strField j "path"), mode := (← strField j "mode"), store := (← strField j "store"), level := level }
+
+def hopOfJson (j : Json) : Except String HOp := do
+  match (← strField j "k") with
+  | "save" => pure (.save (← valOfJson (← field j "v")) (← saveArgsOfJson j))
+  | "saveRaises" => pure (.saveRaises (← saveArgsOfJson j))
+  | "load" => pure (.load (← strField j "path"))
+  | "inspect" => pure (.inspect (← strField j "path"))
+  | k => throw s!"history op {k}"
+
+def houtToJson : HOut → Json
+  | .saved store path => Json.mkObj [("saved", Json.arr #[Json.str store, Json.str path])]
+  | .raised e => Json.mkObj [("raised", Json.str (callErrName e))]
+  | .loaded v => Json.mkObj [("loaded", valToJson v)]
+  | .printed => Json.mkObj [("printed", Json.bool true)]
+
 def step (st : Unit) (j : Json) : Unit × Json :=
   match (do
     let op ← strField j "op"
@@ -25,6 +49,21 @@ def step (st : Unit) (j : Json) : Unit × Json :=
         match load skl (save sks v) with
         | .ok r => pure (okJson (valToJson r))
         | .error e => pure (errJson (errName e))
+    | "history" =>
+        -- a history of public calls (save / load / print_file) on an initially empty set of targets
+        let ops ← (← arrField j "ops").toList.mapM hopOfJson
+        pure (okJson (Json.arr ((hrun [] ops).2.map houtToJson).toArray))
+    | "resolve" =>
+        -- the argument checks of save() alone; `exists` = os.path.exists(final path)
+        let a ← saveArgsOfJson j
+        let ex ← boolField j "exists"
+        match resolveSave (fun _ => ex) a with
+        | .ok (store, path) => pure (okJson (Json.arr #[Json.str store, Json.str path]))
+        | .error e => pure (errJson (callErrName e))
+    | "numeric" =>
+        -- `_is_numeric_scalar` on the isinstance facts of a value
+        let f : NumFeat := { isArrayLike := (← boolField j "arraylike"), isPyNumber := (← boolField j "pynumber"), isNpReal := (← boolField j "npreal") }
+        pure (okJson (Json.bool (isNumericScalar f)))
     | "dec" =>
         -- `str(n)` of the key layer (Model/SeqKeys.lean)
         let ns ← (← arrField j "ns").toList.mapM (·.getNat?)
